@@ -191,3 +191,57 @@ Proof.
     apply (Hheld k eq_refl); [right; exact Hc|].
     intros cl Hn Hp. exists (CCloseEnd k). eapply en_close_end; eauto.
 Qed.
+
+(* ---------- every step makes progress ---------- *)
+Definition pc_w (p : pc) : nat :=
+  match p with PStart => 8 | PLocked => 7 | PWrote => 6 | PEnqd => 2 | PWait => 1 | PClosing => 1 | PDone _ => 0 end%nat.
+Fixpoint callers_w (l : list caller) : nat :=
+  match l with [] => 0 | x :: r => pc_w (cpc x) + callers_w r end%nat.
+Definition recv_w (r : rstate) : nat :=
+  match r with RIdle => 1 | RServing _ => 2 | RDeliv _ _ => 1 | RExited => 0 end%nat.
+Definition measure (s : state) : nat :=
+  (callers_w (s_callers s) + 2 * length (s_fifo s) + recv_w (s_recv s))%nat.
+
+Lemma callers_w_upd l k x y :
+  nth_error l k = Some x -> (callers_w (upd k y l) + pc_w (cpc x) = callers_w l + pc_w (cpc y))%nat.
+Proof.
+  revert k; induction l as [|z l IH]; intros [|k] H; cbn in *; try discriminate.
+  - injection H as ->. lia.
+  - specialize (IH _ H). lia.
+Qed.
+
+Theorem step_decreases c s ch s' : step c s ch = Some s' -> (measure s' < measure s)%nat.
+Proof.
+  intro H. unfold measure.
+  destruct ch; step_inv H; cbn [s_callers s_fifo s_recv];
+    rewrite ?E, ?E0, ?E1, ?E2, ?E3; cbn [recv_w length]; rewrite ?app_length; cbn [length];
+    try match goal with
+        | Hn : nth_error (s_callers s) ?k = Some ?x |- context [callers_w (upd ?k ?y _)] =>
+          pose proof (callers_w_upd _ _ _ y Hn) as Hw; cbn [cpc set_pc set_pc_id pc_w] in Hw;
+          match goal with Hp : cpc x = _ |- _ => rewrite Hp in Hw; cbn [pc_w] in Hw end
+        end; try lia.
+  all: destruct (ck c0); cbn [pc_w] in *; lia.
+Qed.
+
+Lemma run_bounded c sched : forall s s', run_from c s sched = Some s' -> (length sched + measure s' <= measure s)%nat.
+Proof.
+  induction sched as [|ch r IH]; intros s s' H; cbn in H.
+  - injection H as <-. cbn. lia.
+  - destruct (step c s ch) as [s1|] eqn:E; [|discriminate].
+    pose proof (step_decreases _ _ _ _ E). specialize (IH _ _ H). cbn. lia.
+Qed.
+
+(* from every reachable state the calls can all be completed, and no schedule can avoid it for more than
+   [measure s] steps: a schedule that cannot be extended ends with every call answered *)
+Theorem completes c s :
+  1 <= c_max c -> reachable c s -> exists sched s', run_from c s sched = Some s' /\ all_done s' = true.
+Proof.
+  intros Hm. remember (measure s) as n eqn:Hn. revert s Hn.
+  induction n as [n IH] using lt_wf_ind. intros s Hn Hr.
+  destruct (all_done s) eqn:Hd.
+  - exists [], s. auto.
+  - destruct (no_hang c s Hm Hr Hd) as (ch & s1 & Hs).
+    pose proof (step_decreases _ _ _ _ Hs) as Hlt.
+    destruct (IH (measure s1) ltac:(lia) s1 eq_refl (reachable_step _ _ _ _ Hr Hs)) as (sched & s' & Hrun & Hdone).
+    exists (ch :: sched), s'. cbn. rewrite Hs. auto.
+Qed.
